@@ -32,8 +32,10 @@ def to_smt2(assertions, get_values):
     text = re.sub(r"\(set-info :status \w+\)\n", "", text)
     head = "(set-logic ALL)\n(set-option :produce-models true)\n"
     tail = ""
-    if get_values:
-        tail = "(get-value (%s))\n" % " ".join(get_values)
+    declared = set(re.findall(r"\(declare-fun (\|?[^\s|]+\|?) ", text))
+    gv = [g for g in (get_values or []) if g in declared]
+    if gv:
+        tail = "(get-value (%s))\n" % " ".join(gv)
     return head + text + tail
 
 
@@ -97,6 +99,10 @@ def check(assertions, inputs, strategies=("cvc5-int", "z3-new", "cvc5"), timeout
     return check_text(prepare(assertions, inputs), strategies, timeout_s)
 
 
+OBLIGATION_STAGES = (("cvc5", 4), ("cvc5-int", 8), ("z3-new", 20), ("cvc5", None), ("cvc5-int", None), ("z3-new", None))
+PROPERTY_STAGES = (("cvc5-int", 45), ("cvc5", 10), ("z3-new", 20), ("cvc5-int", None), ("z3-new", None), ("cvc5", None))
+
+
 def check_text(text, strategies=("cvc5-int", "z3-new", "cvc5"), timeout_s=60):
     """Return dict(status=unsat|sat|unknown|error, model, solver, solver_s, tried)."""
     if text is None:
@@ -105,7 +111,11 @@ def check_text(text, strategies=("cvc5-int", "z3-new", "cvc5"), timeout_s=60):
     tried = []
     total = 0.0
     for s in strategies:
-        st, out, dt = run_solver(s, text, timeout_s)
+        tmo = timeout_s
+        if isinstance(s, tuple):
+            s, tmo = s[0], (s[1] if s[1] is not None else timeout_s)
+            tmo = min(tmo, timeout_s)
+        st, out, dt = run_solver(s, text, tmo)
         total += dt
         tried.append((s, st, round(dt, 2)))
         if st == "unsat":
